@@ -62,14 +62,16 @@ deriving Repr
 def allParams (np : Nat) : List Nat := List.range np
 
 def A.raw (a : A) (x : Var) : List Nat := (a.env.lookup x).getD []
-def A.set (a : A) (x : Var) (ps : List Nat) : A := { a with env := (x, ps) :: a.env }
+/-- rebinding replaces the old entry; lists are kept duplicate-free so that joins stay small -/
+def A.set (a : A) (x : Var) (ps : List Nat) : A :=
+  { a with env := (x, ps.eraseDups) :: a.env.filter (fun p => p.1 != x) }
 def A.vars (a : A) : List Var := a.env.map (·.1)
 
 def joinA (a b : A) : A :=
   { top := a.top || b.top
-    env := (a.vars ++ b.vars).map (fun x => (x, a.raw x ++ b.raw x))
-    w := a.w ++ b.w
-    r := a.r ++ b.r }
+    env := (a.vars ++ b.vars).eraseDups.map (fun x => (x, (a.raw x ++ b.raw x).eraseDups))
+    w := (a.w ++ b.w).eraseDups
+    r := (a.r ++ b.r).eraseDups }
 
 def leA (a b : A) : Bool :=
   b.top || (!a.top && a.vars.all (fun x => (a.raw x).all (fun p => (b.raw x).contains p))
@@ -87,8 +89,8 @@ def ana (np : Nat) : Stmt → A → A
   | .bind x .fresh, a => a.set x []
   | .bind x (.alias ys), a => a.set x (ys.flatMap a.raw)
   | .bind x .unknown, a => a.set x (allParams np)
-  | .write x, a => { a with w := a.raw x ++ a.w }
-  | .ret x, a => { a with r := a.raw x ++ a.r }
+  | .write x, a => { a with w := (a.raw x ++ a.w).eraseDups }
+  | .ret x, a => { a with r := (a.raw x ++ a.r).eraseDups }
   | .seq s t, a => ana np t (ana np s a)
   | .branch s t, a => joinA (ana np s a) (ana np t a)
   | .loop b, a =>
